@@ -15,10 +15,18 @@ inductive Call where
   | req (i : Nat) | rsrc (i : Nat) | responder | resp (i : Nat) (hasResource succeeded : Bool)
 deriving Repr, BEq, DecidableEq
 
+/-- what `_get_responder` finds for the request -/
+inductive Target where
+  | route      -- a route matched and its resource has a responder for the method
+  | noMethod   -- a route matched (resource is set) but has no responder for the method: the framework's 405 responder raises
+  | sink       -- no route, a sink matched: the sink is the responder, resource stays None
+  | nothing    -- nothing matched: the framework's 404 responder raises
+deriving Repr, BEq, DecidableEq
+
 structure Cfg where
   comps : List Comp
   independent : Bool
-  routed : Bool
+  target : Target
   responder : Act
 deriving Repr
 
@@ -76,16 +84,20 @@ def run (cfg : Cfg) : List Call :=
   let (t1, complete1, raised1, depStack) :=
     if cfg.independent then let (t, c, r) := reqIndep cs; (t, c, r, [])
     else reqDep cs false
-  -- routing: only if nothing completed or raised
-  let hasRes := !raised1 && !complete1 && cfg.routed
-  -- an unrouted request raises 404 in the responder phase
-  let raisedRoute := !raised1 && !complete1 && !cfg.routed
+  -- routing: only if nothing completed or raised; `resource` is set only by a route match
+  let clean1 := !raised1 && !complete1
+  let hasRes := clean1 && (cfg.target == .route || cfg.target == .noMethod)
   let (t2, complete2, raised2) := if hasRes then rsrcLoop cs else ([], false, false)
+  -- the responder slot is reached only if nothing completed or raised
+  let reach := clean1 && !complete2 && !raised2
+  -- the application's responder (resource method or sink) ...
   let (t3, raised3) :=
-    if hasRes && !complete2 && !raised2 then
+    if reach && (cfg.target == .route || cfg.target == .sink) then
       ([Call.responder], cfg.responder == .raise_)
     else ([], false)
-  let succeeded := !(raised1 || raisedRoute || raised2 || raised3)
+  -- ... or the framework's default responder, which raises 405 / 404
+  let raisedDefault := reach && (cfg.target == .noMethod || cfg.target == .nothing)
+  let succeeded := !(raised1 || raised2 || raised3 || raisedDefault)
   let order := if cfg.independent then (cs.filter (·.2.resp.isSome)).map (·.1) |>.reverse else depStack
   t1 ++ t2 ++ t3 ++ respLoop cs order hasRes succeeded
 
